@@ -1,5 +1,6 @@
 (* C10: hand-written executable models of the parts of optimism/TensorMath.py that the translator does not cover
-   (argsort-based relative differences, the x2 == x1 guard, _symmetric_matrix_function_jvp_helper).  Definitions only;
+   (the x2 == x1 guard, _symmetric_matrix_function_jvp_helper).  The argsort-based relative-difference kernels are no longer modelled
+   by hand: they are regenerated (OV.gen.Gen_TensorMathFun._log_relative_difference / _pow_relative_difference).  Definitions only;
    generic in the numeric interface (R for theorems, binary64 for the correspondence). *)
 From Coq Require Import ZArith QArith List.
 From OV.base Require Import Num.
@@ -7,24 +8,6 @@ Import ListNotations.
 
 Section H.
   Context {T : Type} {NT : Num T}.
-
-  (* lams = [lam1, lam2]; i = argsort(abs(lams))  (stable: ties keep the order) -> (lams[i[0]], lams[i[1]]) *)
-  Definition sort_abs (lam1 lam2 : T) : T * T :=
-    if nltb (nabs lam2) (nabs lam1) then (lam2, lam1) else (lam1, lam2).
-
-  Definition nlog1p (x : T) : T := nln (nadd nunit x).
-
-  (* TensorMath._log_relative_difference: arg = small/big - 1; (log1p(arg)/arg)/big *)
-  Definition log_rd (lam1 lam2 : T) : T :=
-    let sb := sort_abs lam1 lam2 in
-    let arg := nsub (ndiv (fst sb) (snd sb)) nunit in
-    ndiv (ndiv (nlog1p arg) arg) (snd sb).
-
-  (* TensorMath._pow_relative_difference: arg = small/big; big**(m-1)*(arg**m - 1)/(arg - 1)   (real exponent m) *)
-  Definition pow_rd (lam1 lam2 m : T) : T :=
-    let sb := sort_abs lam1 lam2 in
-    let arg := ndiv (fst sb) (snd sb) in
-    ndiv (nmul (npowr (snd sb) (nsub m nunit)) (nsub (npowr arg m) nunit)) (nsub arg nunit).
 
   (* rd(x1, x2) inside _symmetric_matrix_function_jvp_helper:
        x2_safe = where(x2 == x1, x2 + 1.0, x2);  where(x2 == x1, df(x1), relative_difference(x1, x2_safe)) *)
